@@ -140,6 +140,18 @@ example : isAbs exWs = true ∧ PkgRel exPs := by
   intro t ht
   simp [exPs, allNodes, pkgNodes] at ht
   rcases ht with rfl | rfl <;> decide
+/-- the hypotheses of the piece lemmas (`ordered_iff`, `ancestorSet_eq_reach`, `conflict_iff`, …) hold of this graph,
+    and so does the specification -/
+example : Spec.valid exWs exPs ∧ NoDuplicate (allNodes exPs) ∧ DepsDefined (allNodes exPs) ∧ RelOuts (allNodes exPs) := by
+  have hpk : PkgRel exPs := by
+    intro t ht
+    simp [exPs, allNodes, pkgNodes] at ht
+    rcases ht with rfl | rfl <;> decide
+  have hv := accepts_implies_valid exWs exPs (by decide) hpk (by decide)
+  exact ⟨hv, hv.noDuplicate, hv.depsDefined, relOuts_of_outputs hpk hv.outputs⟩
+/-- `//p:b` is ordered after `//:a` only through the alias -/
+example : ordered Cfg.current (allNodes exPs) ⟨[112], [98]⟩ ⟨[], [97]⟩ = true ∧
+    ordered Cfg.current (allNodes exPs) ⟨[], [97]⟩ ⟨[112], [97, 108]⟩ = true := by decide
 /-- … and without the dependency the same two targets are rejected -/
 example : analyze exWs [⟨[exA], []⟩, ⟨[{ exB with deps := [] }], []⟩] = .reject .conflict := by decide
 
